@@ -419,12 +419,17 @@ type H2Response struct {
 func (p *H2Peer) Response(streamID uint32) H2Response {
 	var r H2Response
 	gotHeaders := false
+	endAfterBlock := false // HEADERS carried END_STREAM but its block continues in CONTINUATION frames
 	for _, f := range p.Frames() {
 		if f.StreamID != streamID {
 			continue
 		}
 		switch f.Type {
 		case xhttp2.FrameHeaders, xhttp2.FrameContinuation:
+			if f.Type == xhttp2.FrameHeaders && f.EndStream && !f.EndHeaders {
+				endAfterBlock = true
+			}
+
 			if f.EndHeaders {
 				if !gotHeaders {
 					st := ""
@@ -443,8 +448,9 @@ func (p *H2Peer) Response(streamID uint32) H2Response {
 					r.Trailer = f.Fields
 				}
 			}
-			if f.Type == xhttp2.FrameHeaders && f.EndStream {
+			if f.EndHeaders && (f.Type == xhttp2.FrameHeaders && f.EndStream || endAfterBlock) {
 				r.Ended = true
+				endAfterBlock = false
 			}
 		case xhttp2.FrameData:
 			r.Body = append(r.Body, f.Data...)
